@@ -94,6 +94,19 @@ Theorem C32_digests_source :
 Proof. exact digests_source. Qed.
 Print Assumptions C32_digests_source.
 
+(* algorithm selection: the reply names the FIRST entry of the client's preference list that the
+   server supports (the client's order wins, unsupported names are skipped); none supported = failure *)
+Theorem C32_first_supported :
+  forall sup req a, first_supported sup req = Some a ->
+  exists l1 l2, req = l1 ++ a :: l2 /\ In a sup /\ (forall x, In x l1 -> ~ In x sup).
+Proof. exact first_supported_some. Qed.
+Print Assumptions C32_first_supported.
+
+Theorem C32_none_supported :
+  forall sup req, first_supported sup req = None <-> (forall x, In x req -> ~ In x sup).
+Proof. exact first_supported_none. Qed.
+Print Assumptions C32_none_supported.
+
 (* what the repair removed: the old inner loop (fixed chunklen, offset += count, no EOF exit)
    never ends once the offset is at or past end of file with bytes still wanted *)
 Theorem C32_old_loop_diverges :
